@@ -190,6 +190,33 @@ def generate(rng, n, tier="quick"):
         case = session(cfg, [], {"api": "render_template", "src": tpl}, {"s": "<i>&", "xs": ["<", ">"]})
         case["id"] = "%s-w%02d" % (ID, j)
         out.append((case, {"expect": ["text", exp, None], "plain": None, "text": exp, "form": "text", "tpl": tpl, "strict": False}))
+    # the families of the Lean theorems C20.macro_helper_converts_and_writes / macro_helper_rejects_wrong_type_at_the_tag:
+    # L ++ {{name 1}} ++ R with `name` (any identifier) registered for the family's |x: Json| x  →  L ++ escape("1") ++ R (exact);
+    # registered for the family's |x: str| …  →  ParamTypeMismatchForName(m_str, x, str) at the tag, after exactly L was written
+    from .C03 import thm_left, thm_right
+    from .C02 import ident_name
+    from .C18 import line_col
+    from .common import escape_of
+    tr = rng.fork("thm")
+    for j in range(60 if tier == "quick" else 1500):
+        r = tr.fork(j)
+        L, R = thm_left(r), thm_right(r)
+        nm = ident_name(r)
+        escn = r.pick(["none", "mark", "html"])
+        src = L + "{{" + nm + " 1}}" + R
+        if j % 2 == 0:
+            case = session({"escape": escn, "strict": r.chance(0.5), "helpers": [{"name": nm, "kind": "macro", "sig": sig_json("m_ident")}]},
+                           [], {"api": "render_template", "src": src}, {})
+            case["id"] = "%s-thm%04d" % (ID, j)
+            exp = L + escape_of(escn)("1") + R
+            out.append((case, {"expect": ["text", exp, None], "plain": None, "text": exp, "form": "text", "tpl": src, "strict": False}))
+        else:
+            line, col = line_col(src, len(L))
+            case = session({"escape": escn, "strict": r.chance(0.5), "helpers": [{"name": nm, "kind": "macro", "sig": sig_json("m_str")}]},
+                           [("main", src)], {"api": "render_to_write", "name": "main"}, {})
+            case["id"] = "%s-thm%04d" % (ID, j)
+            out.append((case, {"expect": ["errat", "ParamTypeMismatchForName", ["m_str", "x"]], "plain": None, "text": None, "form": "errat", "tpl": src,
+                               "strict": False, "line": line, "col": col, "written": L}))
     return out
 
 
@@ -200,6 +227,13 @@ def oracle(case, meta, impl):
         if l.get("r") == "ok" and l.get("out") == meta["text"]:
             return []
         return ["%s: written %r, expected %r" % (meta["tpl"], l.get("out", l.get("reason")), meta["text"])]
+    if kind == "errat":
+        reason, args = meta["expect"][1], meta["expect"][2]
+        ok = (l.get("r") == "rerr" and l.get("reason") == reason and (l.get("args") or [])[:2] == args and l.get("line") == meta["line"]
+              and l.get("col") == meta["col"] and l.get("name") == "main" and l.get("written") == meta["written"])
+        return [] if ok else ["%s: expected %s%s at %s:%s after %r, got %s %s %s at %s:%s (%s) after %r" % (
+            meta["tpl"], reason, args, meta["line"], meta["col"], meta["written"], l.get("r"), l.get("reason", ""), l.get("args"),
+            l.get("line"), l.get("col"), l.get("name"), l.get("written", l.get("out")))]
     if kind == "err":
         reason, args = meta["expect"][1], meta["expect"][2]
         if l.get("r") == "rerr" and l.get("reason") == reason and (l.get("args") or [])[:2] == args:
